@@ -23,6 +23,7 @@ A missing anchor is a broken tie: the list then lacks that fact and the lock lem
   BF_NodeLayerBox        Node::abs_layer_bounding_box: group -> Some(abs_layer); path, text -> abs_stroke_bounding_box().to_non_zero_rect()
                          (ece95dc); image -> abs_bounding_box().to_non_zero_rect()
   BF_RenderNodeNone      render_node: `let bbox = node.abs_layer_bounding_box()?;`
+  BF_RenderNodeSingleExit  render_node has exactly one early exit: the `?` on abs_layer_bounding_box (no other `?`, no `return`)
   BF_RenderNodeTs        render_node: pre_translate(-bbox.x(), -bbox.y()) then pre_concat(parent abs transform)
   BF_RenderNodeParentTs  parent transform: group -> abs * ts^-1, other nodes -> abs_transform
   BF_NodeById            Tree::node_by_id / node_by_id: empty id -> None, pre-order search over groups
@@ -130,7 +131,22 @@ def generate(api):
             api.broken('table', 'BBoxTables.BF_NewSimpleClipOnly', PROPS, "Path::new_simple call sites: %r" % (sites,))
     except Exception as e:
         api.broken('table', 'BBoxTables.BF_NewSimpleClipOnly', PROPS, e)
-    names = [n for n, _, _ in FACTS] + ['BF_NewSimpleClipOnly']
+    # render_node: exactly one way to report 'nothing to render'
+    try:
+        lib = api.rd(LIB)
+        _, _, body = api.rs2coq.find_fn(lib, 'render_node')
+        nb = norm(body)
+        nq = len(re.findall(r"\?\s*;|\?\s*\.|\?\s*\)", nb))
+        nr = len(re.findall(r"\breturn\b", nb))
+        nnone = len(re.findall(r"\bNone\b", nb))
+        if nq == 1 and nr == 0 and nnone == 0 and 'let bbox = node.abs_layer_bounding_box()?;' in nb:
+            found.append('BF_RenderNodeSingleExit')
+        else:
+            api.broken('table', 'BBoxTables.BF_RenderNodeSingleExit', PROPS,
+                       "render_node: %d `?`, %d `return`, %d `None` (expected exactly the `?` on abs_layer_bounding_box)" % (nq, nr, nnone))
+    except Exception as e:
+        api.broken('table', 'BBoxTables.BF_RenderNodeSingleExit', PROPS, e)
+    names = [n for n, _, _ in FACTS] + ['BF_NewSimpleClipOnly', 'BF_RenderNodeSingleExit']
     out = [api.HEADER, "From Coq Require Import List.\nImport ListNotations.\n",
            "Inductive bbox_fact :=\n  | " + "\n  | ".join(names) + ".\n",
            "Definition bbox_facts : list bbox_fact := [%s].\n" % "; ".join(found),
